@@ -127,6 +127,11 @@ class _Expand(ast.NodeTransformer):
         if d is None:
             # D.get(k)(x): only meaningful under a test that k is in D
             return ast.copy_location(self._chain(name, k, n.args, n.keywords, None), n)
+        # a default that is itself an entry of the table: `D.get(k, D[K0])(x)`
+        if isinstance(d, ast.Subscript) and isinstance(d.value, ast.Name) and d.value.id == name:
+            hit = [v for key, v in self.t[name] if ast.dump(key) == ast.dump(d.slice)]
+            if len(hit) == 1:
+                d = hit[0]
         return ast.copy_location(self._chain(name, k, n.args, n.keywords, _apply(d, n.args, n.keywords)), n)
 
     def visit_Subscript(self, n: ast.Subscript):
